@@ -28,12 +28,13 @@ type c11 struct {
 	split                                 *types.Func
 	pure                                  map[*types.Func]int
 	pkgFuncs                              []*types.Func
+	r3name                                string // rule id under which the envelope-maintenance obligations are filed (C11.R3, or C12.R5 when run as a premise of the nearest-neighbour bounds)
 }
 
 func checkC11(c *Ctx) {
 	c.Rule("C11.R1", "outside the constructor every store to the root is balanced, on every path, by the matching height adjustment (new root above ⇒ ++, root replaced by its child ⇒ --); every node creation site sets the node's level")
 	c.Rule("C11.R2", "parent links follow entries: every node literal initialises parent or becomes the root; every placement of an entry with a possibly non-nil child into a node's entries is paired with child.parent = that node, or the entry already belongs to that node")
-	c.Rule("C11.R3", "every mutation of a node's entries under Insert/Delete is followed, before the operation returns, by the upward pass that stores the recomputed envelope into the parent's entry")
+	c.Rule("C11.R3", "every mutation of a node's entries under Insert/Delete is followed, before the operation returns, by the upward pass that stores the recomputed envelope into the parent's entry; the pass itself visits every ancestor up to the root (no early exit, root recognised by identity or by a parent link that every root store clears) and repairs the node's own entry at each level")
 	c.Rule("C11.R4", "Insert changes size by exactly +1 on every path; Delete returns true only after removing one entry and decrementing size once, and returns false only on paths that performed no store to tree state")
 	c.Rule("C11.R5", "every append to the entries of a node that is linked into the tree (not one of the two groups a split is filling) is followed on every path by a test of len(entries) against MaxChildren whose overflow branch splits that node")
 	c.Rule("C11.R6", "intersect ⇔ closed boxes share a point, containsRect ⇔ r2 ⊆ r1, containsPoint ⇔ closed containment, enlarge/boundingBox = lattice join (all weak orderings, exhaustive); the search visits every entry whose box intersects the query and no other filter is applied")
@@ -42,7 +43,7 @@ func checkC11(c *Ctx) {
 		c.Unk("C11.R1", "index/rtree", token.NoPos, "package not loaded")
 		return
 	}
-	a := &c11{c: c, info: p.TypesInfo, pure: map[*types.Func]int{}}
+	a := &c11{c: c, info: p.TypesInfo, pure: map[*types.Func]int{}, r3name: "C11.R3"}
 	if !a.discover() {
 		return
 	}
@@ -55,7 +56,7 @@ func checkC11(c *Ctx) {
 	c.exhaust = true
 	c.Floor("C11.R1", 3)
 	c.Floor("C11.R2", 6)
-	c.Floor("C11.R3", 3)
+	c.Floor("C11.R3", 5)
 	c.Floor("C11.R4", 2)
 	c.Floor("C11.R5", 2)
 	c.Floor("C11.R6", 5)
@@ -165,7 +166,7 @@ func (a *c11) discover() bool {
 		}
 	}
 	if a.fold == nil {
-		c.Unk("C11.R3", "index/rtree.node#envelope", token.NoPos, "no method computing a node's envelope found")
+		c.Unk(a.r3name, "index/rtree.node#envelope", token.NoPos, "no method computing a node's envelope found")
 		return false
 	}
 	return true
@@ -770,7 +771,7 @@ func (a *c11) r3() {
 		})
 	}
 	if len(U) == 0 {
-		c.Bad("C11.R3", "index/rtree#upward-pass", token.NoPos, "no function stores a node's recomputed envelope into its parent's entry: envelopes are never updated")
+		c.Bad(a.r3name, "index/rtree#upward-pass", token.NoPos, "no function stores a node's recomputed envelope into its parent's entry: envelopes are never updated")
 		return
 	}
 	var us []string
@@ -778,6 +779,13 @@ func (a *c11) r3() {
 		us = append(us, f.Name())
 	}
 	sort.Strings(us)
+	for _, n := range us {
+		for f := range U {
+			if f.Name() == n {
+				a.r3pass(f)
+			}
+		}
+	}
 	// mutation sites: X.entries = … where X is not a node created in this function
 	type site struct {
 		fn  *types.Func
@@ -880,16 +888,16 @@ func (a *c11) r3() {
 			}
 			if U[fn] {
 				// inside the upward pass itself: the pass continues to the root (loop/recursion); checked by construction of U
-				c.OK("C11.R3", cons, st.as.Pos(), "inside the upward pass %s, which continues towards the root", fn.Name())
+				c.OK(a.r3name, cons, st.as.Pos(), "inside the upward pass %s, which continues towards the root", fn.Name())
 				continue
 			}
 			ok, why := followed(fn, st.as)
 			if why != "" {
-				c.Unk("C11.R3", cons, st.as.Pos(), "%s", why)
+				c.Unk(a.r3name, cons, st.as.Pos(), "%s", why)
 				continue
 			}
 			if ok {
-				c.OK("C11.R3", cons, st.as.Pos(), "followed on every path by the upward pass (%s)", strings.Join(us, "/"))
+				c.OK(a.r3name, cons, st.as.Pos(), "followed on every path by the upward pass (%s)", strings.Join(us, "/"))
 				continue
 			}
 			// helper: every caller must follow the call with the upward pass
@@ -923,9 +931,9 @@ func (a *c11) r3() {
 				})
 			}
 			if callersOK && ncall > 0 {
-				c.OK("C11.R3", cons, st.as.Pos(), "helper: every caller continues with the upward pass")
+				c.OK(a.r3name, cons, st.as.Pos(), "helper: every caller continues with the upward pass")
 			} else {
-				c.Bad("C11.R3", cons, st.as.Pos(), "`%s` changes a node's entries but a path returns to the user without the upward pass (%s) recomputing the envelopes above it: SearchIntersect prunes by stale boxes", src(st.as), strings.Join(us, "/"))
+				c.Bad(a.r3name, cons, st.as.Pos(), "`%s` changes a node's entries but a path returns to the user without the upward pass (%s) recomputing the envelopes above it: SearchIntersect prunes by stale boxes", src(st.as), strings.Join(us, "/"))
 			}
 		}
 	}
